@@ -117,6 +117,7 @@ type Module struct {
 	// callback tap
 	tapPending []CallbackRecord
 	tapRecords []CallbackRecord
+	blockCbs   []CallbackRecord
 	tapSubs    []func(w *engine.World, rec CallbackRecord)
 	txCodes    map[string]uint32
 
@@ -303,6 +304,13 @@ func (m *Module) Setup(w *engine.World) {
 		m.tapPending = nil
 		n.K.Service.VerifTapCallbacks(m.onRespCallback, m.onStateCallback)
 	})
+}
+
+// BeforeBlock: whatever the tap recorded between the last commit and this block comes from
+// executions on throw-away branches of the state (the parameter lab runs begin/end blocks
+// there): not history.
+func (m *Module) BeforeBlock(w *engine.World, bp *engine.BlockPlan) {
+	m.tapPending = nil
 }
 
 func txHashOf(ctx sdk.Context) string {
